@@ -118,6 +118,14 @@ def enumerate_cases(tier, scope):
                 for m in msgs:
                     sched += [list(m), ['settle']]
                 yield {'program': launcher, 'schedule': sched, 'comm': comm, 'mode': 'quiescent', 'controller': 'thread'}
+        # a work chain (two steps, the first one waits for a future) given the communicator at construction
+        wc_case = {'outline': [['step', 'a'], ['step', 'b']], 'behaviour': {'rets': {'a': [{'__tc__': {'k': ['fut', 'f1']}}], 'b': [5]}, 'preds': {}, 'bodies': {'b': [['out', 'x', 1]]}}}
+        for comm in ('bare', 'loop'):
+            for msgs in ([], [['rpc', 'pause', 'pm'], ['rpc', 'play', None]], [['rpc', 'kill', 'km']], [['bcast', 'pause', 'bp'], ['rpc', 'status', None], ['bcast', 'play', None]], [['rpc', 'status', None]]):
+                sched = [['settle']]
+                for m in msgs:
+                    sched += [list(m), ['settle']]
+                yield dict(wc_case, schedule=sched, comm=comm, mode='quiescent', controller='thread')
         # a listener that close()s the process from its termination notification (the last transition must still be
         # announced), and a process class whose kill() answers with a future resolving to the library's answer
         for name in ('wait1', 'chain', 'gated', 'async2'):
@@ -250,11 +258,15 @@ class Side:
     def __init__(self, case, remote):
         self.case = case
         self.remote = remote
-        program = case['program']
+        program = case.get('program')
         if case.get('wrapped_kill'):
             program = dict(program, wrapped_kill=True)  # kill() of the class answers with a future that resolves to the library's answer
         closing = [{'on': on, 'occ': 1, 'do': ['close', None]} for on in ('on_process_finished', 'on_process_killed', 'on_process_excepted')] if case.get('closing_listener') else []
-        self.ex = Exec({'program': program, 'pid': 'P1', 'cleanup_raises': case.get('cleanup_raises'), 'listener': closing}, attach_listener=bool(closing))
+        run_case = {'program': program, 'pid': 'P1', 'cleanup_raises': case.get('cleanup_raises'), 'listener': closing}
+        if 'outline' in case:
+            # a work chain under remote control (same protocol, its own constructor)
+            run_case = {'outline': case['outline'], 'behaviour': case['behaviour'], 'pid': 'P1', 'cleanup_raises': case.get('cleanup_raises'), 'listener': closing}
+        self.ex = Exec(run_case, attach_listener=bool(closing))
         self.snaps = []
         self.replies = []
         self.recorded = []  # return values of the process's own pause/play/kill (in-step mode)
@@ -435,6 +447,16 @@ def execute(case):
                 _activate(a)
                 a.message(['rpc', 'status', None])
                 a.drain()
+                # ... and both of its subscriptions were given back: its identifiers are free again (a process loaded from
+                # a checkpoint with the same communicator subscribes under the same identifiers)
+                if not case.get('sub_fail'):
+                    ident = str(a.ex.proc.pid)
+                    for what, add, remove in (('rpc', a.inner.add_rpc_subscriber, a.inner.remove_rpc_subscriber), ('broadcast', a.inner.add_broadcast_subscriber, a.inner.remove_broadcast_subscriber)):
+                        try:
+                            add(lambda *args, **kwargs: None, identifier=ident)
+                            remove(ident)
+                        except kiwipy.DuplicateSubscriberIdentifier:
+                            v('subscription-not-released', f'the terminated (closed) process still holds its {what} subscription {ident!r}')
 
             # replies
             for i, rec in enumerate(a.replies):
